@@ -93,6 +93,9 @@ theorem step_other (w : World) (i j : Nat) (st : Stmt) (h : j ≠ i) : (step w i
   | readO =>
     simp only [step]
     rw [endStmt_other _ _ _ h, ensureTx_other _ _ _ h]
+  | readHead =>
+    simp only [step]
+    rw [endStmt_other _ _ _ h, ensureTx_other _ _ _ h]
   | writeO op =>
     simp only [step]
     split
